@@ -180,6 +180,129 @@ Theorem diagram_table cfg skops dg html :
   end.
 Proof. destruct dg as [[|]|sect]; reflexivity. Qed.
 
+(* ------------------------------------------------------------------ where the diagram goes *)
+Definition is_skops (cfg : config) (t : template) : bool :=
+  match t with TStr name => pstr_eqb name (skops_name cfg) | _ => false end.
+
+(* the operations before the diagram call *)
+Definition init_prefix (cfg : config) (t : template) (params : list (pstr * pstr)) : list op :=
+  match t with
+  | TStr name => if pstr_eqb name (skops_name cfg)
+                 then [OAdd false (skops_template cfg); OAddHyperparams (hyper_section cfg) None params] else []
+  | TMap kvs => [OAdd false kvs]
+  | TNone => []
+  end.
+
+Lemma init_ops_split cfg t dg params html :
+  snd (init_card cfg t dg params html) = Done ->
+  init_ops cfg t dg params html = init_prefix cfg t params ++ diagram_ops cfg (is_skops cfg t) dg html.
+Proof.
+  rewrite init_card_snd. unfold init_ops, init_plan, init_prefix, is_skops. destruct t as [|name|kvs]; [reflexivity| |].
+  - destruct (negb (mem name (valid_templates cfg))); [discriminate|].
+    destruct (pstr_eqb name (skops_name cfg)); reflexivity.
+  - destruct (key_clash cfg kvs); [discriminate | reflexivity].
+Qed.
+
+(* whenever the constructor asks for the diagram at `sect`, the new card has it there: a plain, visible, unfolded section
+   headed by the last part of sect whose content is the processed HTML without a description *)
+Theorem init_diagram_placed cfg t dg params html sect :
+  snd (init_card cfg t dg params html) = Done ->
+  diagram_ops cfg (is_skops cfg t) dg html = [OAddModelPlot sect None html] ->
+  exists x, lookup (split_names sect) (data (fst (init_card cfg t dg params html))) = Some x
+            /\ shallow_of x = (leaf_title sect, model_plot_content None html, true, false, KText).
+Proof.
+  intros Hok Hd. rewrite init_card_fst, (init_ops_split _ _ _ _ _ Hok), Hd, run_card_app.
+  set (c := run_card (init_prefix cfg t params) empty_card).
+  destruct (placement_model_plot sect None html c) as [x [H1 [H2 [H3 [H4 [H5 [H6 _]]]]]]].
+  exists x. split.
+  - unfold run_card at 1. cbn [run]. destruct (run_op (OAddModelPlot sect None html) c) as [c1 r] eqn:E.
+    cbn [fst] in *. exact H1.
+  - unfold shallow_of. rewrite H2, H3, H4, H5, H6. reflexivity.
+Qed.
+
+(* ... and when it asks for none, the card is the run of the operations before it *)
+Theorem init_no_diagram cfg t dg params html :
+  snd (init_card cfg t dg params html) = Done ->
+  diagram_ops cfg (is_skops cfg t) dg html = [] ->
+  fst (init_card cfg t dg params html) = run_card (init_prefix cfg t params) empty_card.
+Proof. intros Hok Hd. rewrite init_card_fst, (init_ops_split _ _ _ _ _ Hok), Hd, app_nil_r. reflexivity. Qed.
+
+(* the plan, spelled out (it is the definition: stated so that the table is visible among the theorems) *)
+Lemma init_plan_table cfg t dg params html :
+  init_plan cfg t dg params html =
+  match t with
+  | TStr name =>
+      if negb (mem name (valid_templates cfg)) then Raise EValue
+      else if pstr_eqb name (skops_name cfg)
+      then Ok (OAdd false (skops_template cfg) :: OAddHyperparams (hyper_section cfg) None params :: diagram_ops cfg true dg html)
+      else Ok (diagram_ops cfg false dg html)
+  | TMap kvs => if key_clash cfg kvs then Raise EType else Ok (OAdd false kvs :: diagram_ops cfg false dg html)
+  | TNone => Ok (diagram_ops cfg false dg html)
+  end.
+Proof. reflexivity. Qed.
+
+(* ------------------------------------------------------------------ the two builder sections of a default card *)
+(* a closed check over the configuration (instantiated by vm_compute per run): "skops" is valid; neither default path lies
+   on the other; the sections the template lists at the two default paths have no subsections of their own *)
+Definition no_subs_at (p : list pstr) (d : dict) : bool :=
+  match lookup p d with Some (Sec _ _ _ _ _ []) | None => true | _ => false end.
+
+Definition default_paths_ok (cfg : config) : bool :=
+  let T := add_texts false (skops_template cfg) [] in
+  let hp := split_names (hyper_section cfg) in
+  let pp := split_names (plot_section cfg) in
+  mem (skops_name cfg) (valid_templates cfg)
+  && negb (is_prefix hp pp) && negb (is_prefix pp hp) && no_subs_at hp T && no_subs_at pp T.
+
+Lemma no_subs_at_spec p d : no_subs_at p d = true -> match lookup p d with Some old => subs old | None => [] end = [].
+Proof. unfold no_subs_at. destruct (lookup p d) as [[t c v f k [|? ?]]|]; try discriminate; reflexivity. Qed.
+
+(* on the skops template, for EVERY oracle value: the hyperparameter table -- folded, no description, rows = get_params --
+   sits at the default path of add_hyperparams; when the constructor adds the diagram at add_model_plot's default path it is
+   a plain unfolded section holding the processed HTML; neither has subsections *)
+Theorem skops_default_sections cfg dg params html :
+  default_paths_ok cfg = true ->
+  let c := fst (init_card cfg (TStr (skops_name cfg)) dg params html) in
+  let table := Sec (leaf_title (hyper_section cfg)) [] true true (KTable (hyperparam_table params)) [] in
+  (diagram_ops cfg true dg html = [OAddModelPlot (plot_section cfg) None html] ->
+     lookup (split_names (hyper_section cfg)) (data c) = Some table
+     /\ lookup (split_names (plot_section cfg)) (data c)
+        = Some (Sec (leaf_title (plot_section cfg)) (model_plot_content None html) true false KText []))
+  /\ (diagram_ops cfg true dg html = [] ->
+      lookup (split_names (hyper_section cfg)) (data c) = Some table
+      /\ lookup (split_names (plot_section cfg)) (data c)
+         = lookup (split_names (plot_section cfg)) (add_texts false (skops_template cfg) [])).
+Proof.
+  unfold default_paths_ok. cbv zeta. rewrite !andb_true_iff, !negb_true_iff.
+  intros [[[[Hv Hhp] Hph] Hh] Hp].
+  pose proof (no_subs_at_spec _ _ Hh) as Hh'. pose proof (no_subs_at_spec _ _ Hp) as Hp'.
+  set (T := add_texts false (skops_template cfg) []) in *.
+  set (H := table_section None true (hyper_section cfg) (hyperparam_table params)).
+  assert (Hafter : lookup (split_names (hyper_section cfg)) (add_single (hyper_section cfg) H T)
+                   = Some (Sec (leaf_title (hyper_section cfg)) [] true true (KTable (hyperparam_table params)) [])).
+  { unfold add_single. rewrite lookup_add_same by apply split_names_nonnil.
+    assert (E : match lookup (split_names (hyper_section cfg)) T with Some old => subs old | None => subs H end = [])
+      by (destruct (lookup (split_names (hyper_section cfg)) T); [exact Hh' | reflexivity]).
+    rewrite E. reflexivity. }
+  assert (Hplot : lookup (split_names (plot_section cfg)) (add_single (hyper_section cfg) H T)
+                  = lookup (split_names (plot_section cfg)) T).
+  { unfold add_single. apply lookup_add_frame; [reflexivity | exact Hph]. }
+  assert (Hdata : forall dops, diagram_ops cfg true dg html = dops ->
+            data (fst (init_card cfg (TStr (skops_name cfg)) dg params html))
+            = data (run_card dops (mkCard (add_single (hyper_section cfg) H T) []))).
+  { intros dops Hd. rewrite init_card_fst. unfold init_ops, init_plan. rewrite Hv, pstr_eqb_refl. cbn [negb]. rewrite Hd.
+    rewrite !run_card_cons. reflexivity. }
+  split; intros Hd; rewrite (Hdata _ Hd).
+  - rewrite run_card_cons. cbn [run_card run fst run_op set_data data]. unfold add_single at 1 3. split.
+    + rewrite lookup_add_frame; [exact Hafter | reflexivity | exact Hhp].
+    + rewrite lookup_add_same by apply split_names_nonnil. fold (add_single (hyper_section cfg) H T). rewrite Hplot.
+      assert (E : match lookup (split_names (plot_section cfg)) T with
+                      | Some old => subs old | None => subs (model_plot_section (plot_section cfg) None html) end = [])
+        by (destruct (lookup (split_names (plot_section cfg)) T); [exact Hp' | reflexivity]).
+      rewrite E. reflexivity.
+  - cbn [run_card run fst data]. split; [exact Hafter | exact Hplot].
+Qed.
+
 (* ------------------------------------------------------------------ every listed section exists afterwards *)
 (* an add never removes a section *)
 Lemma lookup_add_persist p q new d :
